@@ -26,7 +26,9 @@ func FuzzJavaPasses(f *testing.F) {
 		"class A { String s = \"\"\"\n #\n \"\"\"; }", "enum E { A { }, ; }", "record R<T>(T t) { }",
 		"@interface A { int v() default 1; }", "interface I { default <T> T m() { return null; } }",
 		"class A { Object o = int[]::new; Object p = x -> { }; }", "open module m { requires transitive a; }",
-		"class Ünï { int 变量 = 'é'; } // TODO(x): y", "/**/", "//", "class A { { switch (x) { case null -> { } default -> { } } } }",
+		"class Ünï { int 变量 = 'é'; } // TODO(x): y", "/**/", "//",
+		"interface I { synchronized void m(); volatile int K = 1; }", "import Foo; import static Foo.bar; class A extends Foo { }", "package a;", "import a.B;", ";;",
+		"class A { void get() { } void set() { } void $() { } } // TODO(a", "class A { }\r\n// TODO", "@interface A { native int v() default 1; }", "class A { { switch (x) { case null -> { } default -> { } } } }",
 	} {
 		f.Add([]byte(s))
 	}
